@@ -270,11 +270,10 @@ Definition pesc_byte (b : byte) : list byte :=
   else if (b <? 32)%N && negb ((b =? 9)%N || (b =? 10)%N || (b =? 13)%N) then [92; 117; 48; 48; hexd (b / 16); hexd (b mod 16)]%N
   else [b].
 Definition pesc (bs : list byte) : list byte := concat (map pesc_byte bs).
-(* Symbol.Readably *)
+(* Symbol.Readably; a keyword follows the same rule as every other symbol (repo_fixes C03-6) *)
 Definition symbol_text (c : pcfg) (name : list byte) : list byte :=
   match name with
   | [] => [124; 124]%N
-  | 58%N :: _ => case_name (p_case c) name
   | _ => if need_pipes name then [124%N] ++ pesc (case_name (p_case c) name) ++ [124%N] else case_name (p_case c) name
   end.
 
